@@ -63,8 +63,18 @@ def strategy_case(draw):
     return {'nodes': nodes, 'apps': apps, 'free': draw(vec(0, 40))}
 
 
+CELL_PROFILE = {
+    'rich_allocs': True,
+    'weights': {'app': 14, 'prio': 4, 'move': 2, 'rm': 2},
+    'lease': False,
+}
+
+
 def strategy(tier):
-    return strategy_case()
+    from pbt import gen
+    cell = gen.cell_case(CELL_PROFILE).map(lambda c: dict(c, kind='cell'))
+    return st.integers(0, 9).flatmap(
+        lambda k: cell if k < 2 else strategy_case())
 
 
 def fixed_cases():
@@ -86,7 +96,60 @@ def frac_util(acc, reserved):
     return best
 
 
+def execute_cell(case, stats):
+    """Queue predicates on the queues of real cycles, plus: an instance with
+    the unplaced rank is on no server after the cycle."""
+    from pbt import cellsim
+    seen = {'capped': False, 'multi': False}
+
+    def observe(sim, info):
+        expected = {}
+        for name in sim.cell.apps:
+            expected.setdefault(sim.decl_apps[name]['label'], set()).add(name)
+        got = {}
+        for label, entries in info.queues:
+            names = [name for name, _rank, _srv in entries]
+            if len(names) != len(set(names)):
+                raise Violation('c06.cycle.once',
+                                'queue of %s lists an instance twice: %s' %
+                                (label, names))
+            got.setdefault(label, set()).update(names)
+            ranks = [rank for _n, rank, _s in entries]
+            for left, right in zip(ranks, ranks[1:]):
+                if left > right:
+                    raise Violation(
+                        'c06.cycle.rank-order',
+                        'ranks decrease along the queue of %s: %s' %
+                        (label, ranks))
+            for name, rank, _srv in entries:
+                if rank == UNPLACED:
+                    seen['capped'] = True
+                    if name in sim.cell.apps and \
+                            sim.cell.apps[name].server is not None:
+                        raise Violation(
+                            'c06.cycle.unplaced-on-server',
+                            '%s has the unplaced rank (over its '
+                            'utilisation cap) but is on %s after the '
+                            'cycle' % (name, sim.cell.apps[name].server))
+            if len({sim.decl_apps[n]['alloc'] for n in names}) >= 2:
+                seen['multi'] = True
+        for label, names in expected.items():
+            if got.get(label, set()) != names:
+                raise Violation(
+                    'c06.cycle.once',
+                    'partition %s: queue considered %s, scheduled %s' %
+                    (label, sorted(got.get(label, set())), sorted(names)))
+
+    sim = cellsim.CellSim(case, observers=[observe])
+    sim.run(stats)
+    stats.count('kind:cell')
+    return seen['capped'] and seen['multi']
+
+
 def execute(case, stats):
+    if case.get('kind') == 'cell':
+        return execute_cell(case, stats)
+    stats.count('kind:tree')
     scheduler.DIMENSION_COUNT = 3
     clock = vclock.VClock()
     scheduler.time = clock
